@@ -17,7 +17,7 @@ using namespace fh;
 struct Out {
   std::FILE* f = nullptr;
   long lines = 0;
-  long cap = 400000;
+  long cap = 6000000;
   bool overflow = false;
   void put(const bj::object& o) {
     if (lines >= cap) { overflow = true; return; }
